@@ -389,6 +389,46 @@ def fn_returns_time(F, fn, tf, depth=0):
     return res
 
 
+_ret_param_memo = {}
+
+
+def _return_uses_param(F, fn, k):
+    """the value crate function `fn` returns is computed from its k-th parameter: the parameter reaches a returned value, or a
+    test on it decides which value is returned"""
+    key = (id(F), fn, k)
+    if key in _ret_param_memo:
+        return _ret_param_memo[key]
+    _ret_param_memo[key] = True
+    b = F.body(fn)
+    work = b
+    for nb in F.nested(fn):
+        if nb.kind == 'coroutine' and nb.parent == b.path and len(b.blocks) <= 3:
+            work = nb
+    fl = flow_of(work)
+    cfg = fl.cfg
+
+    def from_param(os_):
+        for o in os_:
+            if work is b and o.kind == 'param' and o.key == k:
+                return True
+            if work is not b and o.kind == 'upvar' and o.key is not None and int(o.key) == k - 1:
+                return True
+        return False
+    res = from_param(fl.origins(0))
+    if not res:
+        ret_blocks = {bb for (bb, idx, kind, data, dproj) in fl.defs.get(0, [])}
+        for sb in cfg.reachable():
+            t = work.blocks[sb]['term']
+            if t['k'] != 'switch' or t['on']['k'] == 'const' or not from_param(fl.origins(t['on'])):
+                continue
+            succ = [x for x, _ in cfg.succ[sb] if work.blocks[x]['term']['k'] != 'unreachable']
+            some = set().union(*[cfg.reach(x) for x in succ]) if succ else set()
+            if (some - _both_sides(cfg, sb)) & ret_blocks:
+                res = True
+    _ret_param_memo[key] = res
+    return res
+
+
 def time_tainted(F, fl, op, tf, depth=0, seen=None):
     """the operand may carry a value computed from a file time or the clock: a time reader's result, the result of a crate
     function whose return value depends on one, or the result of a crate function called with such a value"""
@@ -408,8 +448,11 @@ def time_tainted(F, fl, op, tf, depth=0, seen=None):
             if F.body(c) is not None and fn_returns_time(F, c, tf, depth + 1):
                 return True
             if o.bb is not None:
-                # the result of a call computed from a time-dependent argument (`a.ok() > b.ok()`, `lookup(rel, stat)`)
-                for a in b.blocks[o.bb]['term'].get('args', []):
+                # the result of a call computed from a time-dependent argument (`a.ok() > b.ok()`, `lookup(rel, stat)`): any
+                # argument of a std function; for a crate function only an argument its return value is computed from
+                for i_, a in enumerate(b.blocks[o.bb]['term'].get('args', [])):
+                    if F.body(c) is not None and not _return_uses_param(F, c, i_ + 1):
+                        continue
                     if time_tainted(F, fl, a, tf, depth + 1, seen):
                         return True
         elif o.kind == 'agg' and F.body(str(o.key)) is not None and o.bb is not None:
